@@ -225,6 +225,13 @@ def monitor(case, obs):
       if rq['wseq'] > hseq:
         v.append(('write-after-timeout', 'call %s was handed TimeoutError at tick %s and the write of its request to port %s started at tick %s afterwards'
                   % (cid, htick, rq['port'], rq['wat'])))
+      # the serial transport arms its own deadline timer before it writes: a write that is still blocked when the
+      # deadline passes is aborted (and the connection recycled), so the frame can never arrive complete at a later tick
+      # than the one at which the caller was handed TimeoutError (the mux send loop, by contrast, finishes a frame it has
+      # started - aborting would corrupt the shared stream - and then sends Tdiscarded)
+      if case['spec']['stack'] == 'thrift' and rq['at'] > htick:
+        v.append(('serial-write-completed-after-timeout', 'call %s was handed TimeoutError at tick %s; its request, whose write began at '
+                  'tick %s, was still being transmitted and reached port %s complete at tick %s' % (cid, htick, rq['wat'], rq['port'], rq['at'])))
     # discard expectation (mux only)
     if case['spec']['stack'] == 'mux':
       fired = [e for e in x['ev'] if e[1] == 'timer-fire' and e[3]]
@@ -233,7 +240,7 @@ def monitor(case, obs):
         rq = written[0]
         plan, default = plans[rq['port']]
         act = plan.get(cid, default)
-        answered_later_or_never = act.get('act') in ('drop',) or (act.get('act') in ('reply', 'exc', 'dup', 'bogus', 'rerr', 'garbage')
+        answered_later_or_never = act.get('act') in ('drop',) or (act.get('act') in ('reply', 'exc', 'null', 'dup', 'bogus', 'rerr', 'garbage')
                                                                    and rq['at'] + act.get('delay', 0) > htick)
         closed = [cl for cl in obs['closes'] if str(cl[1]) == rq['port'] and cl[2] == rq['conn']]
         slow = max([ep.get('send_delay', 0) for ep in case['spec']['endpoints']] + [0])
